@@ -71,6 +71,11 @@ func (g *c09Gen) op() string {
 	case 4, 5, 6:
 		goal = "retract(" + g.pick("p(1)", "p(2)", "p(3)", "p(_)", "p(10)", "q(_)", "q(1)", "(p(_) :- q(_))", "(p(_) :- _)", "p(0)", "(p(_) :- (_ ; _))", "(q(_) :- _)", "z", "z", "(z :- _)") + ")"
 	case 7:
+		if g.r.Intn(3) == 0 {
+			// the clause term reaches retract/1 through a variable
+			goal = fmt.Sprintf("(C%s = %s, retract(C%s))", tag, g.pick("p(1)", "(p(_) :- q(_))", "(p(_) :- _)", "(q(_) :- _)", "(z :- _)", "z", "(p(_) :- (_ ; _))", "p(_)"), tag)
+			break
+		}
 		goal = "retractall(" + g.pick("p(_)", "p(1)", "q(_)", "p(2)", "z") + ")"
 	case 8:
 		goal = "abolish(" + g.pick("p/1", "q/1") + ")"
@@ -213,6 +218,7 @@ func (c *c09) Generate(cx *Ctx, chunk int) []*Item {
 		"(retract(p(X5)), w(g(X5)), asserta(p(6)), fail ; true)", "(clause(p(X6), B6), w(c(X6, B6)), retractall(p(_)), fail ; true)",
 		"(p(X7), w(s(X7)), (p(Y7), w(t(Y7)), (retract(p(Y7)) -> true ; true), fail ; true), fail ; true)",
 		"(p(1) -> w(y1) ; w(n1))", "(p(2), w(h2), fail ; true)", "(retract(p(2)) -> assertz(p(2)) ; assertz(p(1)))",
+		"(C8 = (p(_) :- _), retract(C8) -> w(y8) ; w(n8))",
 	}
 	for _, init := range initial {
 		for _, a := range pool {
